@@ -58,6 +58,12 @@ func locOf(addr ssa.Value) (counterLoc, bool) {
 	return counterLoc{}, false
 }
 
+// checkC04Shared: closures capture by reference and see later updates only if the environment operations are the plain
+// scope-chain walk (C03's shape rules: no memo of where a name was found, no copy).
+func checkC04Shared(p *Prog, l *Ledger) {
+	l.AsOnly(map[string]string{"C03/S1-environment-shape": "C04/S4-closure/environment-shape"}, func() { checkC03(p, l) })
+}
+
 func checkBalancedCounters(p *Prog, l *Ledger, rule string) {
 	// counters: integer locations with a `loc = loc ± const` store in module code outside package initialisers and
 	// outside the scanner/parser cursors (those are positions, not paired state: C08/C09 own them)
